@@ -226,16 +226,8 @@ def sum_ge1(counts, pc, facts):
     return False
 
 
-def run(ctx, chk, tier):
-    chk.rule_text = ("obligations per return path of bootstrap_sample over the built-in configuration matrix (flags, same-class source, delivered size >= 1), per path of "
-                     "_sample_indices (count algebra), mirror pairs of the dual functions, dynamic-method resolution; non-trivial = term mentions source arrays or draws")
-    chk.explanation = ("bootstrap_sample and _sample_indices are explored path by path for every built-in (method, stratification, smoothing) combination. Structural clauses are read "
-                       "off the derived terms: flags forwarded, each class drawn from the source's same class, requested class/stratum sizes sum to the source total on every path "
-                       "(by_label: the four source strata), proportion draws max(int(ratio*size),1) without replacement, delivered sizes have lower bound 1 (interval facts: "
-                       "binomial(n,.) in [0,n], counts >= 0, refined by the at-least-one guards), pos/neg duality of the sampling code, and the dynamic switch. "
-                       "Unbiasedness / reachability in distribution are not decided.")
-    chk.trusted |= {"numpy.random.binomial(n,p) in [0,n]", "numpy.random.choice(a, size=k) has length k", "numpy.repeat(arange(H), counts) has length sum(counts)", "C01 R01.4 for sortedness"}
-    chk.assumptions = ["both source classes non-empty (len(pos) > 0, len(neg) > 0)", "distributional clauses (unbiasedness, reachability) are outside static reach"]
+def sample_wellformed(ctx, chk):
+    """R11.1 / R11.5 / R11.3(proportion) on every return path of Scores.bootstrap_sample over the built-in configuration matrix."""
     ev = ctx.ev
     facts = [compare(">", HP, Const(0)), compare(">", HN, Const(0))]
     # ---------------- R11.1 / R11.5 on bootstrap_sample outcomes
@@ -259,6 +251,14 @@ def run(ctx, chk, tier):
         nret += 1
         res = o.value
         inst = label
+        muts = [e for e in o.events if e["kind"] in ("inplace", "augstore", "store") and e.get("root") in (POS, NEG)]
+        if muts:
+            e = muts[0]
+            chk.violation("R11.8", BS, "%s:source-mutated" % label, "%s of %s (storage of %s)" % (e.get("how", e["kind"]), e.get("target", "?"), show(e["root"], 40)),
+                          "resampling only reads the source's score arrays (an in-place shuffle/sort of a view re-orders the source)",
+                          "score_analysis/scores.py:%s" % getattr(e.get("node"), "lineno", "?"))
+        else:
+            chk.hold("R11.8", label + ":path[%s]" % "".join("T" if t else "F" for _c, t in o.pc)[-12:], "no in-place write reaches the source's score arrays", nontrivial=False)
         if not isinstance(res, Obj):
             chk.unknown("R11.1", "%s returns %s" % (label, show(res, 60)))
             continue
@@ -303,6 +303,20 @@ def run(ctx, chk, tier):
                     chk.violation("R11.3", BS, "proportion:" + nm, show(g, 100) if g is not None else "unset", "int(ratio*%s)" % show(e), ctx.where(BS))
     if nret < 20:
         chk.unknown("R11.1", "only %d return paths of Scores.bootstrap_sample analysed" % nret)
+
+
+def run(ctx, chk, tier):
+    chk.rule_text = ("obligations per return path of bootstrap_sample over the built-in configuration matrix (flags, same-class source, delivered size >= 1), per path of "
+                     "_sample_indices (count algebra), mirror pairs of the dual functions, dynamic-method resolution; non-trivial = term mentions source arrays or draws")
+    chk.explanation = ("bootstrap_sample and _sample_indices are explored path by path for every built-in (method, stratification, smoothing) combination. Structural clauses are read "
+                       "off the derived terms: flags forwarded, each class drawn from the source's same class, requested class/stratum sizes sum to the source total on every path "
+                       "(by_label: the four source strata), proportion draws max(int(ratio*size),1) without replacement, delivered sizes have lower bound 1 (interval facts: "
+                       "binomial(n,.) in [0,n], counts >= 0, refined by the at-least-one guards), pos/neg duality of the sampling code, and the dynamic switch. "
+                       "Unbiasedness / reachability in distribution are not decided.")
+    chk.trusted |= {"numpy.random.binomial(n,p) in [0,n]", "numpy.random.choice(a, size=k) has length k", "numpy.repeat(arange(H), counts) has length sum(counts)", "C01 R01.4 for sortedness"}
+    chk.assumptions = ["both source classes non-empty (len(pos) > 0, len(neg) > 0)", "distributional clauses (unbiasedness, reachability) are outside static reach"]
+    ev = ctx.ev
+    sample_wellformed(ctx, chk)
     # ---------------- R11.2 (= R01.4) is_sorted only with ascending arrays
     from . import c01
     c01.construction_sites(ctx, chk)
@@ -347,6 +361,43 @@ def run(ctx, chk, tier):
                 else:
                     chk.violation("R11.6", q, inst, {k: [pc_text(o)[:120] for o in v] for k, v in vals.items()}, "replacement iff %s" % show(small, 120), ctx.where(q))
     chk.floor("R11.6", 6, "2 classes x 3 configurations")
+    dispatch(ctx, chk)
+
+
+def dispatch(ctx, chk):
+    """R11.7 the configured stratification reaches the index sampler: Scores.bootstrap_sample stratifies by label exactly when
+    config.stratified_sampling == "by_label" (None and the documented by_group fallback are non-stratified); single_pass is true exactly on the single-pass path."""
+    ev = ctx.ev
+    n = 0
+    for m in ("replacement", "single_pass"):
+        for s in (None, "by_label", "by_group"):
+            seen = []
+
+            def stub(ev_, fi, bound):
+                seen.append(dict(bound))
+                return Tup([Sym("PI", ("array", "notnone")), Sym("NI", ("array", "notnone")), Sym("EPs", ("int", "notnone")), Sym("ENs", ("int", "notnone"))])
+
+            ev.stubs[SI] = stub
+            try:
+                outs = ctx.explore(lambda: ev.call(ctx.method(ctx.scores_obj("pos", "pos"), "bootstrap_sample"), [], {"config": make_config(ctx, m, s, False, None)}), chk)
+            finally:
+                ev.stubs.pop(SI, None)
+            inst = "dispatch[%s,%s]" % (m, s)
+            if not seen or not returns(outs):
+                chk.violation("R11.7", BS, inst, "%d sampler calls, %d return paths" % (len(seen), len(returns(outs))), "one call of _sample_indices and a sample", ctx.where(BS))
+                continue
+            for b in seen:
+                n += 1
+                want = (Const(s == "by_label"), Const(m == "single_pass"))
+                got = (b.get("by_label"), b.get("single_pass"))
+                if got == want:
+                    chk.hold("R11.7", inst, "_sample_indices(by_label=%s, single_pass=%s)" % (s == "by_label", m == "single_pass"))
+                else:
+                    chk.violation("R11.7", BS, inst, "_sample_indices(by_label=%s, single_pass=%s)" % tuple(show(x) if x is not None else "?" for x in got),
+                                  "by_label=%s (stratify by label only when asked to; by_group without groups is documented as non-stratified), single_pass=%s" % (s == "by_label", m == "single_pass"),
+                                  ctx.where(BS))
+    if n < 6:
+        chk.unknown("R11.7", "only %d sampler dispatches analysed" % n)
 
 
 def count_algebra(ctx, chk):
